@@ -7,6 +7,12 @@ from .. import common as K
 from ..gen import marshal_synth as MS
 
 VERSIONS = [(2, 7), (3, 6), (3, 7), (3, 8), (3, 9), (3, 10), (3, 11), (3, 12), (3, 13)]
+# Versions without an installed interpreter whose marshal format and code-object layout are those of an installed one:
+# the stream is judged by that interpreter (format-equivalent reference) and handed to xdis under the old version's magic.
+# Only versions whose format the synthesiser does not exceed: 2.5/2.6 (marshal 2 = 2.7), 3.0-3.3 (marshal 2, no references,
+# text only as 'u'), 3.4/3.5 (marshal 3/4 = 3.6).  Magic numbers from CPython's own registry (Lib/importlib/_bootstrap_external.py).
+EQUIV = {(2, 5): ((2, 7), 62131), (2, 6): ((2, 7), 62161), (3, 0): ((3, 6), 3131), (3, 1): ((3, 6), 3151), (3, 2): ((3, 6), 3180),
+         (3, 3): ((3, 6), 3230), (3, 4): ((3, 6), 3310), (3, 5): ((3, 6), 3351)}
 RULE = ("hand-written marshal streams (independent synthesiser): value trees x encoding choices (i / I / l ints, text f/x and binary g/y "
         "floats and complex, s / t / R strings for Python 2, u / a / A / z / Z / t text forms, FLAG_REF on any object kind and r "
         "back-references to any completed object at any depth, small and large tuples, lists, dicts incl. None keys/values, sets, "
@@ -29,7 +35,13 @@ def run(tier, scratch, t0, replay=None):
             jobs.append((v, part, per_v // nb))
 
     magic_of = {}
-    for v in set(j[0] for j in jobs):
+    ref_of = {}
+    for v, (rv, magic) in sorted(EQUIV.items()):
+        if rv in K.available_interps():
+            jobs.append((v, 0, per_v // 3))
+            magic_of[v] = magic
+            ref_of[v] = rv
+    for v in set(j[0] for j in jobs if j[0] not in EQUIV):
         tf, err = K.run_truth(v, "magic", {}, scratch.root, "mg%d%d" % v)
         if tf:
             hexm = K.read_jsonl(tf)[0]["magic"]
@@ -53,7 +65,7 @@ def run(tier, scratch, t0, replay=None):
         sp = os.path.join(scratch.root, tag + ".streams.json")
         with open(sp, "w") as f:
             json.dump(streams, f)
-        tf, err = K.run_truth(v, "loads", {"streams": [s["hex"] for s in streams], "wrap": True}, scratch.root, tag, timeout=1800)
+        tf, err = K.run_truth(ref_of.get(v, v), "loads", {"streams": [s["hex"] for s in streams], "wrap": True}, scratch.root, tag, timeout=1800)
         if tf is None:
             return None, "truth %s: %s" % (K.vstr(v), err)
         out, aerr, so, se = K.run_agent(K.MAIN_HOST, "marshsynth", {"version": list(v), "magic_int": magic_of[v], "streams": sp,
@@ -67,7 +79,8 @@ def run(tier, scratch, t0, replay=None):
             res.inconclusive.append(err)
             continue
         res.merge_agent(out)
-        res.count("streams_v" + K.vstr(j[0]), out["evaluations"])
+        res.count("streams_v" + K.vstr(j[0]) + ("_judged_by_" + K.vstr(ref_of[j[0]]) if j[0] in ref_of else ""), out["evaluations"])
     return K.finish(res, tier, "exploration", RULE, t0,
                     assumptions=["the reference interpreter's marshal.loads decides which encodings the format permits for V and what they mean",
-                                 "the synthesiser is untrusted: its streams are always judged by a real interpreter first"], min_eval=2000)
+                                 "the synthesiser is untrusted: its streams are always judged by a real interpreter first",
+                                 "2.5/2.6 streams are judged by 2.7 and 3.0-3.5 streams by 3.6 (identical marshal format and code-object layout)"], min_eval=2000)
